@@ -67,6 +67,11 @@ func (f *inlineFragmentSelectionMergeVisitor) fieldsCanMerge(left, right int) bo
 		return false
 	}
 
+	// the same field with other arguments is another field: merging the two would drop one of them
+	if !f.operation.ArgumentSetsAreEquals(f.operation.FieldArguments(left), f.operation.FieldArguments(right)) {
+		return false
+	}
+
 	leftDirectives := f.operation.FieldDirectives(left)
 	rightDirectives := f.operation.FieldDirectives(right)
 
